@@ -1015,6 +1015,9 @@ func (t *Template) parseCatch() *catchNode {
 	peek := t.peekNonSpace()
 	if peek.typ != itemRightDelim {
 		_errVar := t.term()
+		if _errVar == nil {
+			t.unexpected(t.next(), "catch", "identifier or closing delimiter")
+		}
 		if typ := _errVar.Type(); typ != NodeIdentifier {
 			t.errorf("unexpected node type '%s' in catch", typ)
 		}
